@@ -507,10 +507,18 @@ class FunctionVerifier:
         I.name_prefix = c.qualname
         # parameters
         argnames = [a.arg for a in self.node.args.posonlyargs + self.node.args.args + self.node.args.kwonlyargs]
+        if self.node.args.kwarg is not None:
+            kwname = self.node.args.kwarg.arg
+            if getattr(c, 'kwparam', None) != kwname:
+                raise OutsideSubset('**%s without a declared keyword universe' % kwname)
+            from .interp import KwMap
+            I.env[kwname] = KwMap({f: (I.fresh('Bool', 'has_' + f), I.fresh(sn, 'kw_' + f)) for f, sn in c.kw_universe.items()})
         for a in argnames:
             if a not in c.params:
                 raise OutsideSubset('parameter %s of %s has no declared sort' % (a, c.qualname))
         for a in argnames:
+            if a == getattr(c, 'kwparam', None):
+                continue
             sn = c.params[a]
             if sn in c.fnparams.values() or a in c.fnparams:
                 fv = FuncVal('fnparam', a, self.cset.protos[c.fnparams[a]])
